@@ -405,6 +405,35 @@ Theorem C12_window_without_guard_refuted :
 Proof. exact window_without_guard_refuted. Qed.
 Print Assumptions C12_window_without_guard_refuted.
 
+(* ---- the server's proxy list; Scripts that end in an error -----------------------------------
+   server_proxy_view k before got: Session.proxies on the server after absorbing a message of kind k that
+   delivered the list got: assigned for the kinds that carry a list, LEFT ALONE for the others - in
+   particular the MvMigrate result (syncMigrate), so the server still lists the proxy the migrated client
+   re-created from the hand-off (same name and bind address: second theorem) *)
+Theorem C12_server_proxies_survive_migration :
+  forall before,
+  server_proxy_view infoSyncMigrate before (carried_proxies infoSyncMigrate ex_session) = before /\
+  (forall k got, writes_proxy_list k = false -> server_proxy_view k before got = before) /\
+  (forall k got, writes_proxy_list k = true -> server_proxy_view k before got = got).
+Proof. exact server_proxies_survive_migration. Qed.
+Print Assumptions C12_server_proxies_survive_migration.
+
+Theorem C12_migrated_proxy_matches_server_view :
+  forall old, map strip_profile (proxies_of true old) = proxies_of false old.
+Proof. exact migrated_proxy_matches_server_view. Qed.
+Print Assumptions C12_migrated_proxy_matches_server_view.
+
+(* a synchronising entry that ran and succeeded is reported by SvResync whatever follows: failing entries,
+   the stop-on-error end of the Script (whose own result is then an error), more entries.  all_ok c a:
+   the prefix a runs through (needed only under stop-on-error, where a failure in a means e never runs) *)
+Theorem C12_script_resync_despite_error :
+  forall stop c a e b c1 k,
+  (stop = false \/ all_ok c a = true) ->
+  run_entry (fst (run_script stop c 0 a)) e = Some (c1, k) -> 0 < k ->
+  0 < snd (run_script stop c 0 (a ++ e :: b)).
+Proof. exact script_resync_despite_error. Qed.
+Print Assumptions C12_script_resync_despite_error.
+
 (* ---- non-vacuity ---------------------------------------------------------------------------
    a concrete client session (two interfaces, a 300-byte host name, kill date, work hours, an
    active proxy, keys) satisfies wf for all six kinds and exact_settings; its settings differ from
